@@ -178,10 +178,10 @@ def std_units(coins, thorough, seed, profile="release", scale=1.0):
         u("leading")
         u("witness")
         u("multisig")
-        nt = int((600000 if thorough else 60000) * scale)
+        nt = int((3000000 if thorough else 60000) * scale)
         for part in range(max(1, nt // 15000)):
             u("random_tokens", n=min(nt, 15000), part=part)
-        nb = int((120000 if thorough else 12000) * scale)
+        nb = int((450000 if thorough else 12000) * scale)
         for part in range(max(1, nb // 3000)):
             u("random_bytes", n=min(nb, 3000), part=part, maxlen=10000)
     return units
